@@ -27,7 +27,8 @@ use vh::gsupport::{ev, take_events};
 
 
 def key(s):
-    return "/".join([s["recv"], ",".join(s["params"]) or "-", s["form"], f"{s['pos']}of{s['n']}", s["asy"], s["mode"]])
+    return "/".join([s["recv"], ",".join(s["params"]) or "-", s["form"], f"{s['pos']}of{s['n']}" + ("+static" if s.get("static_first") else ""),
+                     s["asy"], s["mode"], "provided" if s.get("dflt") else "required"])
 
 
 def self_ty(recv):
@@ -37,6 +38,8 @@ def self_ty(recv):
 
 def render(idx, s):
     recv, kinds, form, n, pos, asy, mode = s["recv"], s["params"], s["form"], s["n"], s["pos"], s["asy"], s["mode"]
+    dflt, static_first = s.get("dflt", False), s.get("static_first", False)
+    default_result = 5_000_000 + idx
     infos = [kind_info(k, p) for p, k in enumerate(kinds)]
     result = 6_000_000 + idx
     recv_decl = {"ref": "&self", "mut": "&mut self", "own": "self", "rc": "self: std::rc::Rc<Self>", "arc": "self: std::sync::Arc<Self>",
@@ -48,7 +51,11 @@ def render(idx, s):
     reals = []
     for k in range(n):
         if k == pos:
-            methods.append(f"        {a}fn f({recv_decl}{', ' if params_decl else ''}{params_decl}) -> u64;")
+            body_or_semi = f""" {{
+            ev("default");
+            {default_result}
+        }}""" if dflt else ";"
+            methods.append(f"        {a}fn f({recv_decl}{', ' if params_decl else ''}{params_decl}) -> u64{body_or_semi}")
             order = list(range(len(kinds)))
             if form == "path":
                 unmocks.append("real_t")
@@ -85,6 +92,11 @@ def render(idx, s):
         {9000 + k}
     }}""")
     sized = ": Sized" if recv == "own" else ""
+    if static_first:
+        # a provided function without receiver: skipped by the macro, but it still occupies a
+        # position of the unmock_with list
+        methods.insert(0, "        fn kind() -> u32 where Self: Sized { 4 }")
+        unmocks.insert(0, "_")
     trait_src = f"""    #[unimock(api=Mk, unmock_with=[{', '.join(unmocks)}])]
     pub trait Tr{sized} {{
 {chr(10).join(methods)}
@@ -94,10 +106,21 @@ def render(idx, s):
     args = ", ".join(i["arg"] for i in infos)
     posts = "\n        ".join(i["post"] for i in infos if i["post"])
     wild = ", ".join("_" for _ in kinds)
+    expect_events = '"target"'
+    expect_result = result
     if mode == "strict":
         new = f"Unimock::new(Mk::f.each_call(matching!({wild})).applies_unmocked())"
+    elif mode == "partial_unmatched":
+        # mentioned, but the only pattern rejects the arguments: a partial mock goes to the real function
+        never = ", ".join(["99"] + ["_"] * (len(kinds) - 1))
+        new = f"Unimock::new_partial(Mk::f.each_call(matching!({never})).returns(1u64)).no_verify_in_drop()"
     else:
         new = "Unimock::new_partial(())"
+        if dflt:
+            # unmentioned: the trait's default body has precedence over the real function
+            expect_events = '"default"'
+            expect_result = default_result
+            posts = ""
     holder = {"ref": f"let u = {new};", "mut": f"let mut u = {new};", "own": f"let u = {new};", "rc": f"let u = std::rc::Rc::new({new});",
               "arc": f"let u = std::sync::Arc::new({new});", "pin": f"let mut u = {new};"}[recv]
     self_expr = {"ref": "&u", "mut": "&mut u", "own": "u", "rc": "u.clone()", "arc": "u.clone()", "pin": "core::pin::Pin::new(&mut u)"}[recv]
@@ -127,11 +150,11 @@ def render(idx, s):
         {setups}
         let r = {call};
         let events = take_events();
-        if events != vec!["target".to_string()] {{
-            return Err(format!("expected exactly one run of the registered function, events {{events:?}}"));
+        if events != vec![{expect_events}.to_string()] {{
+            return Err(format!("expected exactly one run of {{}}, events {{events:?}}", {expect_events}));
         }}
-        if r != {result}u64 {{
-            return Err(format!("result of the real function changed on the way back: {{r}}"));
+        if r != {expect_result}u64 {{
+            return Err(format!("result changed on the way back: {{r}}, expected {expect_result}"));
         }}
         {posts}
         Ok(())
@@ -198,6 +221,16 @@ def shapes(tier):
             layouts.append((2, 1))
         for n, pos in layouts:
             out.append(dict(recv=recv, params=p, form=form, n=n, pos=pos, asy=asy, mode=mode))
+    # provided methods with a registered function, a skipped static function in front, and the
+    # mentioned-but-unmatched fall-through of partial mocks
+    for recv, p, asy, mode, dflt, static_first in itertools.product(
+            RECVS, [["u8"], ["u8", "mut", "str"]], ["sync", "async_fn"], ["strict", "partial", "partial_unmatched"], [False, True], [False, True]):
+        if not dflt and not static_first and mode != "partial_unmatched":
+            continue
+        for form in (["path", "none"] if tier == "quick" else ["path", "explicit", "none"]):
+            if form == "none" and (dflt or mode == "partial_unmatched"):
+                continue
+            out.append(dict(recv=recv, params=p, form=form, n=2, pos=1, asy=asy, mode=mode, dflt=dflt, static_first=static_first))
     return out
 
 
